@@ -131,6 +131,8 @@ def gen_grid(rng):
             "target_dim": target_dim, "mask": rng.random() < 0.7, "bypass": False,
             "suffix": rng.choice([None, "", "_SFX", "_transformed"]), "periodic": rng.random() < 0.04,
             "td_int": rng.random() < 0.3,
+            # "extra dimensions and their chunking": data (integer or float) chunked over the non-axis dims
+            "da_int": rng.random() < 0.3, "da_chunked": rng.random() < 0.3,
             "has_outer": method == "conservative" or rng.random() < 0.6}
 
 
@@ -153,7 +155,7 @@ def build_grid_call(case):
     if case["has_outer"]:
         zc["outer"] = nm("zo")
     g = Grid(ds, coords={nm("Z"): zc}, periodic=case["periodic"], autoparse_metadata=False)
-    da = xr.DataArray(np.array(case["da_vals"], dtype=float).reshape([l for _, l in case["dims"]]),
+    da = xr.DataArray(np.array(case["da_vals"], dtype=int if case.get("da_int") else float).reshape([l for _, l in case["dims"]]),
                       dims=[d for d, _ in case["dims"]], name=case["da_name"])
     td = None
     if case["td_given"]:
@@ -164,6 +166,8 @@ def build_grid_call(case):
     lev = np.array(case["levels"], dtype=float)
     if case.get("da_chunked"):
         da = da.chunk({d: 1 for d in da.dims if d != nm("zc")})
+        if td is not None and case.get("da_int") is not None:
+            td = td.chunk({d: 1 for d in td.dims if d not in (nm("zc"), nm("zo"))})
     if case["target_kind"] == "arr":
         target = xr.DataArray(lev, dims=[case["tname"]],
                               coords=None if case.get("target_nocoord") else {case["tname"]: lev})
@@ -193,6 +197,12 @@ def run_impl(case):
             warnings.simplefilter("ignore")
             r = g.transform(da, case.get("names", {}).get("Z", "Z"), target, **kw)
         new = [r.dims[-1]]      # xr.apply_ufunc appends the output core dimension last
+        if hasattr(r.data, "dask"):
+            # a lazy result must say what it is: every later lazy reduction is carried out at the
+            # declared dtype, so a float result declared as integer changes values downstream
+            declared, actual = r.dtype, r.compute().dtype
+            if declared != actual:
+                return {"err": "LazyDtypeMismatch", "detail": f"declared {declared}, computes to {actual}", "order": []}
         order = sorted(r.dims)
         rt = r.transpose(*order)
         coord = None
